@@ -1,6 +1,7 @@
 (** * Model of [functions/statistical.rs]: [logistic], [logit], [boxcox], [boxcox_shifted], [softmax]
     (the repaired code: softmax shifted by its maximum, boxcox_shifted guarded by [x + alpha > 0],
-    Box-Cox power branch evaluated as [exp_m1(lambda * ln x) / lambda]).  [erf] is in Model/Special.v (C09).
+    Box-Cox power branch evaluated as [ln x * (exp_m1(u) / u)] with [u = lambda * ln x], [ln x] itself when
+    [lambda == 0 || u == 0]).  [erf] is in Model/Special.v (C09).
     No proofs in this file. *)
 From Coq Require Import List.
 From Compute Require Import Base.Ops.
@@ -20,8 +21,12 @@ Section Transforms.
     if andb (leb O 0 p) (leb O p 1) then Some (ln_ O (p / (1 - p))) else None.
 
   (** the two branches shared by [boxcox] and [boxcox_shifted], on the (shifted) argument [y] *)
+  (** [let ln_y = y.ln(); let u = lambda * ln_y;
+       if lambda == 0. || u == 0. { ln_y } else { ln_y * (u.exp_m1() / u) }] *)
   Definition boxcox_body (y lambda : T) : T :=
-    if eqb O lambda 0 then ln_ O y else f1 O Expm1 (lambda * ln_ O y) / lambda.
+    let ln_y := ln_ O y in
+    let u := lambda * ln_y in
+    if orb (eqb O lambda 0) (eqb O u 0) then ln_y else ln_y * (f1 O Expm1 u / u).
 
   (** [assert!(x > 0.)] *)
   Definition boxcox (x lambda : T) : option T :=
